@@ -303,6 +303,8 @@ def rule_no_struct_copies_into_caches(ctx, rule='R17.7'):
 
 
 def run(ctx):
+    from . import pyrules
+    pyrules.rule_selector_truthiness(ctx, 'R06.11', ('Simulation', 'Simulationarchive'))   # a simulation equals its own restored snapshot, snapshot 0 included
     serial.rule_zeroed_particle_arrays(ctx)     # R05.12: persisted particle arrays contain no bytes nobody computed
     from . import c06 as _c06
     _c06.rule_empty_delta(ctx)     # R06.10: a simulation equals its own restored snapshot also when that state equals the first snapshot
